@@ -4,6 +4,7 @@ Gallina model with the implementation (exact on dyadic data where float arithmet
 property's own predicates on the implementation (incl. the centre finder, which has no theorem)."""
 import itertools
 import math
+import time
 from fractions import Fraction
 
 from harness.lib import boot
@@ -106,8 +107,20 @@ def meta_diff(old, new, coords=True):
     return ""
 
 
+def nonfinite(ctx, op, res, data):
+    """inf/nan in an implementation result (never produced on valid input by the modelled code): a property failure
+    reported under its own key instead of a literal-conversion crash"""
+    flat = [v for r in (res or []) for v in r]
+    if all(math.isfinite(v) for v in flat):
+        return False
+    ctx.violation("%s:nonfinite" % op, "%s returned inf/nan where the defining formula is finite" % op, data)
+    return True
+
+
 def finish_cases(ctx, tag, exprs, metas, keyfn, whatfn):
-    mism, errors, _ = run_mismatch_cases(tag, REQ, exprs, defs=DEFS)
+    # at most 4 coqc processes per stage (shared machine); each file stays well under a minute
+    chunk = max(25, -(-len(exprs) // 4))
+    mism, errors, _ = run_mismatch_cases(tag, REQ, exprs, chunk=chunk, jobs=4, defs=DEFS)
     ctx.corr_cases += len(exprs)
     for e in errors:
         ctx.violation("corr-eval-error", "model evaluation failed: " + e[:300], dict(kind="coq-error", log=e), nofail=True)
@@ -142,6 +155,8 @@ def stage_normalize(ctx):
             flat_in = [v for r in rows for v in r]
         out = normalize(im)
         flat = [float(v) for v in out.values.ravel()]
+        if nonfinite(ctx, "normalize", [flat], dict(kind="normalize", values=flat_in, got=repr(flat))):
+            continue
         ctx.count("normalize:%s" % ("multichannel" if multichannel else "%dx%d" % shape if shape[0] * shape[1] <= 4 else "grid"))
         ctx.nontriv(("norm", shape, multichannel))
         exprs.append("qlist_close tol (normalize QO %s) %s" % (ql(flat_in), ql(flat)))
@@ -244,6 +259,8 @@ def stage_zero_filter(ctx):
             xs = [i * sp for i in range(nx)]
             ys = [j * sp for j in range(ny)]
             res, im, out = run_zf(rows, sp)
+        if nonfinite(ctx, "zero_filter", res, dict(kind="zero_filter", rows=rows, result=repr(res))):
+            return res
         cmpf = "oimg_exact" if exact else "oimg_close"
         lit = "None" if res is None else "(Some %s)" % rowsl(res)
         exprs.append("%s (%s) %s" % (cmpf, zf_call(rows, xs, ys), lit))
@@ -333,6 +350,8 @@ def stage_bg_correct(ctx):
             res = [[float(v) for v in r] for r in out.values[0]]
         except BadImage:
             out, res = None, None
+        if nonfinite(ctx, "bg_correct", res, dict(kind="bg", raw=raw, bg=bg, df=df, got=repr(res))):
+            continue
         guard = "bg_guard QO %s %s %s %s %s %s" % (
             listlit([zlit(1), zlit(shape[0]), zlit(shape[1])]), listlit([zlit(1), zlit(bshape[0]), zlit(bshape[1])]),
             listlit([zlit(1), zlit(dshape[0]), zlit(dshape[1])]), ql([sp, sp]), ql([bsp, bsp]), ql([sp, sp]))
@@ -504,7 +523,9 @@ def stage_detrend(ctx):
         im = mk(rows, rng.choice([1.0, 0.5, 0.1]))
         out = detrend(im)
         res = [[float(v) for v in r] for r in out.values[0]]
-        call = "tabulate %s %s (detrend QO %s %s (getpix QO %s))" % (
+        if nonfinite(ctx, "detrend", res, dict(kind="detrend", rows=rows, got=repr(res))):
+            continue
+        call = "tabulate %s %s (detrend QOr %s %s (getpix QO %s))" % (
             natlit(shape[0]), natlit(shape[1]), natlit(shape[0]), natlit(shape[1]), rowsl(rows))
         exprs.append("rows_close (%s) %s" % (call, rowsl(res)))
         metas.append(dict(kind="corr-detrend", rows=rows, impl=res))
@@ -561,7 +582,7 @@ def stage_accumulator(ctx):
         for p in range(npx):
             seq = [x[p] for x in xs]
             varlit = "None" if sv is None else "(Some %s)" % qlit(Fraction(sv[p]) ** 2)   # sqrt oracle: s*s
-            exprs.append("(let a := push_all QO %s in qclose tol (acc_mean a) %s && oq_close (acc_var QO a) %s)" % (
+            exprs.append("(let a := push_all QOr %s in qclose tol (acc_mean a) %s && oq_close (acc_var QOr a) %s)" % (
                 ql(seq), qlit(mv[p]), varlit))
             metas.append(dict(kind="corr-accumulator", pushes=seq, impl_mean=mv[p], impl_std=None if sv is None else sv[p]))
         if n == 0:
@@ -678,33 +699,57 @@ def run(ctx):
                 "single-sphere holograms 60-160 px, centre in the central 60%, r 0.3-1.0, n 1.4-1.65, z 5-20; non-trivial = "
                 "distinct (shape, dead position) / fitting even crop / non-refused multi-dead image / distinct stream")
     ctx.clauses_proved = [
-        "normalize: mean 1, idempotent, invariant to non-zero rescaling (sum != 0)",
-        "bg_correct = (raw-df)/(bg-df) at live pixels; image/itself = 1; guard",
-        "zero_filter: positive pixels kept; isolated interior zero -> mean of 4; edge zero -> mean of 2 along the edge; "
-        "dead corner refused (uniform spacing hypothesis explicit)",
-        "subimage: python slice keeps value and coordinate of every retained pixel for all fitting extents; even size s on a "
-        "(half-even rounded) centre c gives exactly [c-s/2, c+s/2); round-half-even is a nearest integer",
-        "detrend removes any added plane (every size), detrend of a plane is 0",
-        "Welford accumulator = batch mean and variance for every push sequence; permutation invariant",
-        "make_center_priors: truth within one sd when the centre finder is within one pixel",
-        "metadata carried by every operation (copy_metadata model)"]
+        "normalize: mean exactly 1, idempotent, invariant to any non-zero rescaling (premise: pixel sum != 0) "
+        "[normalize_mean1, normalize_idem, normalize_scale_inv]",
+        "bg_correct = (raw-df)/(bg-df) pixelwise wherever bg-df > 0, whole image when all are; image/itself = exactly 1; "
+        "refused on a shape/spacing mismatch and on a dead corner [bg_formula, bg_formula_pixel, bg_self_one, bg_refusals]",
+        "zero_filter: positive pixels untouched; isolated interior dead pixel -> mean of its 4 neighbours; isolated edge dead "
+        "pixel -> mean of its 2 neighbours along the edge (all four edges); dead corner refused; result image = per-pixel "
+        "values (hypothesis made explicit: the dead pixel's coordinate is midway between its neighbours', e.g. uniform grid) "
+        "[zf_positive_kept, zf_isolated_interior, zf_edge, zf_corner_rejected, zero_filter_image]",
+        "subimage: for EVERY extent (fitting, clipped, negative = wrapped) each retained pixel keeps its value and both "
+        "physical coordinates and the result is well-formed; every centre (any rational) x every even size that fits gives "
+        "exactly s pixels from round_half_even(c)-s/2; odd sizes give s-1 or s+1; np.round model is a nearest integer, even "
+        "at ties [crop_values_coords, crop_fits_even, crop_extent_even_odd, round_half_even_spec, subimage_arguments]",
+        "detrend removes any added plane at every pixel for every image size, and sends a plane to 0: for any 1-D detrender "
+        "that is additive, local and annihilates affine sequences, and for the least-squares line residual which is proved to "
+        "be one for every length [detrend_plane_oracle, lsq_detrender_meets_oracle_hyps, detrend_plane]",
+        "Welford accumulator: mean and variance equal the batch values for every non-empty push sequence, hence independent "
+        "of the order of pushes; mean 0 / std None when nothing was pushed "
+        "[welford_equals_batch, welford_order_independent, welford_nothing_pushed]",
+        "make_center_priors: mean = centre*spacing + origin, sd = uncertainty*spacing, truth within one sd whenever the centre "
+        "finder is within `uncertainty` pixels; extent = span + mean step [center_prior_arith, extent_is_span_plus_mean_step]",
+        "the executed rational instances (QO; QOr = reduced fractions) compute the Q2R-preimage of the R instance for every "
+        "model function, unconditionally [executed_instances_are_homomorphic, model_agrees_on_Q]"]
     ctx.clauses_explored = [
-        "center_find locates the centre of a computed single-sphere hologram within one pixel (heuristic; sampled)",
-        "metadata (attrs, name, coordinates) kept by each operation on the implementation (sampled)"]
-    ctx.trusted += ["oracle: numpy sqrt in Accumulator.std (relation s*s = var sampled each run)",
-                    "oracle: scipy.signal.detrend = least-squares line residual (correspondence sampled)",
-                    "oracle: xarray interpolate_na / numpy.interp = linear interpolation in the coordinate between nearest valid "
-                    "neighbours (correspondence sampled)",
+        "center_find locates the centre of a computed single-sphere hologram within one pixel (heuristic; no theorem possible; "
+        "sampled on computed holograms)",
+        "metadata (attrs, name, dims, coordinates) kept by normalize/detrend/zero_filter/bg_correct/subimage/Accumulator on "
+        "the implementation (sampled; xarray attrs handling is not modelled)",
+        "float rounding: identities hold on the implementation to 1e-12 relative (normalize, bg, zero_filter), 1e-11 (detrend)"]
+    ctx.trusted += ["oracle: numpy sqrt in Accumulator.std (enters as the relation s*s = var; sampled each run)",
+                    "oracle: scipy.signal.detrend(type='linear') = residual of the least-squares line (hypotheses of "
+                    "detrend_plane_oracle proved for the model's dt_seq; scipy's agreement with dt_seq sampled each run)",
+                    "oracle: xarray interpolate_na / numpy.interp = linear interpolation in the coordinate between the nearest "
+                    "valid neighbours, no extrapolation (correspondence sampled)",
+                    "oracle: numpy.round = round-half-even, python slice semantics (model rhe/pyslice; correspondence exact)",
                     "not modelled: scipy gaussian_filter, sobel and the Hough vote inside center_find (explored only)"]
-    guarded(ctx, "prove", ctx.prove)
+    def timed(tag, fn, *a):
+        t = time.time()
+        guarded(ctx, tag, fn, *a)
+        ctx.notes.append("stage %s: %.1f s" % (tag, time.time() - t))
+
+    timed("prove", ctx.prove)
+    t = time.time()
     boot.boot()
-    guarded(ctx, "normalize", stage_normalize, ctx)
-    guarded(ctx, "zero_filter", stage_zero_filter, ctx)
-    guarded(ctx, "bg_correct", stage_bg_correct, ctx)
-    guarded(ctx, "subimage", stage_subimage, ctx)
-    guarded(ctx, "detrend", stage_detrend, ctx)
-    guarded(ctx, "accumulator", stage_accumulator, ctx)
-    guarded(ctx, "center", stage_center, ctx)
+    ctx.notes.append("stage boot: %.1f s" % (time.time() - t))
+    timed("normalize", stage_normalize, ctx)
+    timed("zero_filter", stage_zero_filter, ctx)
+    timed("bg_correct", stage_bg_correct, ctx)
+    timed("subimage", stage_subimage, ctx)
+    timed("detrend", stage_detrend, ctx)
+    timed("accumulator", stage_accumulator, ctx)
+    timed("center", stage_center, ctx)
 
 
 def replay(ctx, data):
